@@ -49,6 +49,7 @@ type State struct {
 	notes   []string
 	pathID  int
 	trace   []string
+	noClosed bool
 	epoch   int // >0 after a havoc-all: untouched heap variables are unknown, not initial
 }
 
@@ -129,7 +130,36 @@ func (s *State) heapGet(v *Verifier, name, sort string) string {
 	sym := fmt.Sprintf("%s_E%d", smtIdent(name), s.epoch)
 	s.declare(sym, sort)
 	s.heap[name] = sym
+	s.closedAssume(v, name, sym)
 	return sym
+}
+
+// closedFormula: heap closedness for a reference-valued heap variable: allocated objects refer to allocated objects or nil.
+func (v *Verifier) closedFormula(name, sym, alloc string, mdSym func(string) string) string {
+	kind := v.heapIsRef[name]
+	if kind == "field" {
+		return "(forall ((r!c Int)) (=> (and (> r!c 0) (< r!c " + alloc + ")) (and (>= (select " + sym + " r!c) 0) (< (select " + sym + " r!c) " + alloc + "))))"
+	}
+	if strings.HasPrefix(kind, "mapval:") {
+		ks := strings.TrimPrefix(kind, "mapval:")
+		md := mdSym("MD_" + strings.TrimPrefix(name, "MV_"))
+		return "(forall ((m!c Int) (k!c " + ks + ")) (=> (and (> m!c 0) (< m!c " + alloc + ") (select (select " + md + " m!c) k!c)) (and (>= (select (select " + sym + " m!c) k!c) 0) (< (select (select " + sym + " m!c) k!c) " + alloc + "))))"
+	}
+	return ""
+}
+
+// closedAssume adds the (lazily included) closedness fact for a freshly havocked heap symbol.
+func (s *State) closedAssume(v *Verifier, name, sym string) {
+	if v.heapIsRef[name] == "" {
+		return
+	}
+	alloc := s.heapGet(v, "$alloc", sInt)
+	f := v.closedFormula(name, sym, alloc, func(md string) string {
+		return s.heapGet(v, md, v.heapSorts[md])
+	})
+	if f != "" {
+		s.asserts = append(s.asserts, ";;closed "+sym+"\n"+f)
+	}
 }
 
 type heapSnap struct {
@@ -179,12 +209,17 @@ func (s *State) heapHavoc(v *Verifier, name, sort string) string {
 	sym := v.freshSym(smtIdent(name))
 	s.declare(sym, sort)
 	s.heap[name] = sym
+	if !s.noClosed {
+		s.closedAssume(v, name, sym)
+	}
 	return sym
 }
 
 // heapSet defines a new version equal to the given term.
 func (s *State) heapSet(v *Verifier, name, sort, term string) string {
+	s.noClosed = true
 	sym := s.heapHavoc(v, name, sort)
+	s.noClosed = false
 	s.assume(eq(sym, term))
 	return sym
 }
@@ -198,6 +233,12 @@ func (v *Verifier) initialHeapSym(name, sort string) string {
 	v.registerHeap(name, sort)
 	sym := smtIdent(name) + "_0"
 	v.decls.add("heap0:"+name, "(declare-const "+sym+" "+sort+")")
+	if _, done := v.lazyGlobal[sym]; !done && v.heapIsRef[name] != "" {
+		v.lazyGlobal[sym] = ""
+		v.lazyGlobal[sym] = v.closedFormula(name, sym, smtIdent("$alloc")+"_0", func(md string) string {
+			return v.initialHeapSym(md, v.heapSorts[md])
+		})
+	}
 	return sym
 }
 
